@@ -22,7 +22,10 @@ FORMATS = ["short_textgrid", "long_textgrid", "json", "textgrid_json"]
 
 # labels: any Unicode text without carriage returns (C01), and the formats' own keywords (C02)
 PLAIN_LABELS = ["a", "b c", "", "é", "\U0001d11e", "x=1", "12.5", "3", "-", "l\nm", "tab\there", "q\"t", "\"\"", "\"q\"", "a\"\"b\"",
-                "!", "<exists>", "[1]", "line1\nline2\n\nline4", "　wide", "it's", "back\\slash", "ab\"", "\"ab", "\""]
+                "!", "<exists>", "[1]", "line1\nline2\n\nline4", "　wide", "it's", "back\\slash", "ab\"", "\"ab", "\"",
+                # characters that str.splitlines() treats as line ends but the TextGrid formats do not (round 3, C03-mutF: a reader
+                # that normalises line ends with splitlines turned them into \n)
+                "a\u2028b", "m\u2029n", "p\x85q", "v\x0bw", "x\x0cy", "r\x1cs", "r\x1ds\x1et", "cr\rlone"]
 KEYWORD_LABELS = ["item [2]:", "intervals [1]:", "points [3]:", "\"IntervalTier\"", "IntervalTier", "TextTier", "text = \"x\"",
                   "ooTextFile short", "item[1]", "intervals[2]", "points[1]", "xmin = 5", "name = \"n\"", "size = 3", "class = \"IntervalTier\""]
 NAMES = ["words", "phones", "t 1", "é", "n\"q", "x=y"]
